@@ -606,6 +606,105 @@ theorem burst_kept {i j : Inst} (hij : i ≠ j) (s : State) (u : Ups) (n : Str) 
     exact kept_mapFC _ _ _ _ _ (fun f => force_name f j st') (fun f => force_getState_ne f i j st' hij) r
       ⟨r, hr, rfl, rfl, rfl, rfl⟩
 
+/-! ### an acquire records under the acquiring id -/
+
+theorem put_getState_self (f : FC) (i : Inst) (st : IState) (c : Int) : (f.put i st c).getState i = some st := by
+  unfold FC.getState FC.put
+  simp only [List.find?_append]
+  have h1 : (f.states.filter (·.1 != i)).find? (·.1 == i) = none := by
+    rw [List.find?_eq_none]
+    intro x hx
+    have := (List.mem_filter.1 hx).2
+    simpa using this
+  rw [h1]; simp
+
+theorem setState_has (f : FC) (i : Inst) (rid cur : Int) (h : ¬ cur < 0) (hm : f.isMif = true) :
+    (setState f i rid cur).1.getState i ≠ none := by
+  unfold setState
+  simp only [hm, Bool.not_true, Bool.false_eq_true, if_false, h]
+  repeat' (first | split | (simp only []; split))
+  all_goals (rw [put_getState_self]; simp)
+
+theorem setState_keeps_has (f : FC) (i : Inst) (rid cur : Int) (h : ¬ cur < 0) (hs : f.getState i ≠ none) :
+    (setState f i rid cur).1.getState i ≠ none := by
+  by_cases hm : f.isMif = true
+  · exact setState_has f i rid cur h hm
+  · have hf : f.isMif = false := by simpa using hm
+    have : (setState f i rid cur).1 = f := by unfold setState; simp [hf]
+    rw [this]; exact hs
+
+/-- a flow control (store, cluster, name) of the list records an in-flight state of `i`. -/
+def Has (i : Inst) (sh : Nat) (u : Ups) (n : Str) (fcs : List (Nat × Ups × FC)) : Prop :=
+  ∃ x ∈ fcs, x.1 = sh ∧ x.2.1 = u ∧ x.2.2.name = n ∧ x.2.2.getState i ≠ none
+
+theorem has_mapFC {i : Inst} {sh : Nat} {u : Ups} {n : Str} {fcs : List (Nat × Ups × FC)} (sh' : Nat) (u' : Ups)
+    (n' : Str) (g : FC → FC) (hname : ∀ f, (g f).name = f.name)
+    (hkeep : ∀ f, f.getState i ≠ none → (g f).getState i ≠ none) (h : Has i sh u n fcs) :
+    Has i sh u n (mapFC fcs sh' u' n' g) := by
+  obtain ⟨x, hx, h1, h2, h3, h4⟩ := h
+  by_cases hk : (x.1 == sh' && x.2.1 == u' && x.2.2.name == n') = true
+  · exact ⟨(x.1, x.2.1, g x.2.2), List.mem_map.2 ⟨x, hx, by simp [hk]⟩, h1, h2, by simp only [hname]; exact h3, hkeep _ h4⟩
+  · exact ⟨x, List.mem_map.2 ⟨x, hx, by simp [hk]⟩, h1, h2, h3, h4⟩
+
+theorem acquireOne_has (i : Inst) (rid : Int) (sh : Nat) (u : Ups) (s : State) (rq : Str × Int) :
+    (∀ n, Has i sh u n s.fcs → Has i sh u n (acquireOne i rid sh u s rq).1.fcs) ∧
+    ((acquireOne i rid sh u s rq).2.2.2.2 = "" →
+      (acquireOne i rid sh u s rq).2.1 = rq.1 ∧ Has i sh u rq.1 (acquireOne i rid sh u s rq).1.fcs) := by
+  unfold acquireOne
+  split
+  · exact ⟨fun _ h => h, fun h => by simp at h⟩
+  · rename_i f hf
+    split
+    · exact ⟨fun _ h => h, fun h => by simp at h⟩
+    · rename_i hneg
+      split
+      · exact ⟨fun _ h => h, fun h => by simp at h⟩
+      · rename_i hmif
+        have hm : f.isMif = true := by simpa using hmif
+        have hkeepall : ∀ n, Has i sh u n s.fcs →
+            Has i sh u n (mapFC s.fcs sh u rq.1 (fun f => (setState f i rid rq.2).1)) := fun n h =>
+          has_mapFC sh u rq.1 _ (fun f => setState_name f i rid rq.2)
+            (fun f hs => setState_keeps_has f i rid rq.2 hneg hs) h
+        have hnew : Has i sh u rq.1 (mapFC s.fcs sh u rq.1 (fun f => (setState f i rid rq.2).1)) := by
+          unfold getFlowControl at hf
+          obtain ⟨x, hx, hx2⟩ := Option.map_eq_some_iff.1 hf
+          have hp := List.find?_some hx
+          have hmem := List.mem_of_find?_eq_some hx
+          have hp' := hp
+          simp only [Bool.and_eq_true, beq_iff_eq] at hp'
+          refine ⟨(x.1, x.2.1, (setState x.2.2 i rid rq.2).1), List.mem_map.2 ⟨x, hmem, by simp [hp]⟩,
+            hp'.1.1, hp'.1.2, ?_, ?_⟩
+          · simp only [setState_name]; exact hp'.2
+          · exact setState_has _ i rid rq.2 hneg (by rw [hx2]; exact hm)
+        simp only []
+        generalize setState f i rid rq.2 = res
+        obtain ⟨f', acc, latest, old⟩ := res
+        simp only
+        repeat' split
+        all_goals exact ⟨hkeepall, fun _ => ⟨rfl, hnew⟩⟩
+
+theorem acquireLoop_recorded (i : Inst) (rid : Int) (sh : Nat) (u : Ups) (reqs : List (Str × Int)) :
+    ∀ (s : State) (acc : List (Str × Bool × Int × String)),
+      (∀ r ∈ acc, r.2.2.2 = "" → Has i sh u r.1 s.fcs) →
+      ∀ r ∈ (acquireLoop i rid sh u s reqs acc).2, r.2.2.2 = "" →
+        Has i sh u r.1 (acquireLoop i rid sh u s reqs acc).1.fcs := by
+  induction reqs with
+  | nil => intro s acc h; exact h
+  | cons rq rest ih =>
+    intro s acc h
+    have e : acquireLoop i rid sh u s (rq :: rest) acc =
+        acquireLoop i rid sh u (acquireOne i rid sh u s rq).1 rest (acc ++ [(acquireOne i rid sh u s rq).2]) := rfl
+    rw [e]
+    have hone := acquireOne_has i rid sh u s rq
+    apply ih
+    intro r hr he
+    rcases List.mem_append.1 hr with h1 | h1
+    · exact hone.1 _ (h r h1 he)
+    · rw [List.mem_singleton] at h1
+      subst h1
+      have := hone.2 he
+      rw [this.1]; exact this.2
+
 /-! ### upstream events and leadership changes -/
 
 theorem updateUpstreamStateCondition_key (upc : Option Cond) (u : Ups) (sc : List Schema)
@@ -697,6 +796,7 @@ theorem step_noState {i : Inst} (s : State) (op : Op) (h : op.isBy i = false) (h
     exact burst_noState shardOf hij s u n st hs
   | faults names => exact hs
   | apiDelete name => exact hs
+  | wireRejected => exact hs
 
 /-- heartbeat entries of a silent instance are never created. -/
 theorem step_hb_from {i : Inst} (s : State) (op : Op) (h : op.isBy i = false) :
@@ -721,6 +821,7 @@ theorem step_hb_from {i : Inst} (s : State) (op : Op) (h : op.isBy i = false) :
   | burst u j n st => rw [show (step shardOf s (.burst u j n st)).1.hb = s.hb from (burst_frame shardOf s u j n st).1] at hp; exact hp
   | faults names => exact hp
   | apiDelete name => exact hp
+  | wireRejected => exact hp
 
 /-- only the time-out pass removes heartbeat entries of an instance other than the one acting. -/
 theorem step_hb_keep {i : Inst} (s : State) (op : Op) (h : op.isBy i = false) (hop : ∀ now, op ≠ .cleanupTimeout now) :
@@ -743,6 +844,7 @@ theorem step_hb_keep {i : Inst} (s : State) (op : Op) (h : op.isBy i = false) (h
   | burst u j n st => rw [show (step shardOf s (.burst u j n st)).1.hb = s.hb from (burst_frame shardOf s u j n st).1]; exact hp
   | faults names => exact hp
   | apiDelete name => exact hp
+  | wireRejected => exact hp
 
 /-- the time-out pass drops every in-flight state of an instance that is dead at `now`. -/
 theorem cleanupTimeout_drops_dead (s : State) (now : Nat) (i : Inst) (hdead : DeadAt now s i) :
@@ -817,6 +919,7 @@ theorem step_failing (s : State) (op : Op) (h : ∀ l, op ≠ .faults l) : (step
   | burst u j n st => exact burst_failing shardOf s u j n st
   | faults names => exact absurd rfl (h names)
   | apiDelete name => rfl
+  | wireRejected => rfl
 
 /-- a history without `faults` ops (every history of a server with the local store) never has a failing delete. -/
 theorem run_failing (ops : List Op) (h : ∀ op ∈ ops, ∀ l, op ≠ .faults l) (s : State) :
@@ -1118,6 +1221,7 @@ theorem step_allFC (hP : Closed P) (s : State) (op : Op) (h : AllFC P s.fcs) :
       exact allFC_mapFC _ _ _ _ (fun f hf => hP.force f j st' hf) h
   | faults names => exact h
   | apiDelete name => exact h
+  | wireRejected => exact h
 
 theorem run_allFC (hP : Closed P) (ops : List Op) (s : State) (h : AllFC P s.fcs) :
     AllFC P (run shardOf s ops).fcs := by
